@@ -1,5 +1,10 @@
 import JSight.Basic
 import JSight.Model.Unescape
+import JSight.Model.TagName
+import JSight.Model.PathPar
+import JSight.Model.IncName
+import JSight.Model.Descr
+import JSight.Model.Location
 /-!
 Line-protocol driver around the hand-written models (core-only imports, so it links as a `lean_exe`).
 One request per line `op hexarg…`; one response line per request; the line `flush` flushes stdout.
@@ -11,10 +16,50 @@ def withBytes (h : String) (f : Bytes → String) : String :=
   | some b => f b
   | none => "bad-hex"
 
+def withBytes2 (h1 h2 : String) (f : Bytes → Bytes → String) : String :=
+  match fromHex h1, fromHex h2 with
+  | some a, some b => f a b
+  | _, _ => "bad-hex"
+
+def showPairs (pp : List (Bytes × Bytes)) : String :=
+  String.intercalate " " (pp.map fun (a, b) => toHexArg a ++ ":" ++ toHexArg b)
+
 def handle (line : String) : String :=
   match line.splitOn " " with
   | ["unescape", h] => withBytes h fun b => "ok " ++ toHexArg (unescape b)
   | ["quote", h] => withBytes h fun b => "ok " ++ toHexArg (quoteParam b)
+  | ["tagname", h] => withBytes h fun b => "ok " ++ toHexArg (tagName b)
+  | ["tagtitle", h] => withBytes h fun b => "ok " ++ toHexArg (pathTagTitle b)
+  | ["pathescape", h] => withBytes h fun b => "ok " ++ toHexArg (pathEscape b)
+  | ["splitpath", h] => withBytes h fun b => "ok " ++ String.intercalate " " ((splitPath b).map toHexArg)
+  | ["pathpar", h] => withBytes h fun b => "ok " ++ showPairs (pathParameters b)
+  | ["pathparchk", h] => withBytes h fun b =>
+      match checkedPathParameters b with
+      | .ok pp => "ok " ++ showPairs pp
+      | .error .empty => "err empty"
+      | .error (.dup n) => "err dup " ++ toHexArg n
+  | ["incname", h] => withBytes h fun b =>
+      match validName b with
+      | .ok _ => "ok"
+      | .error .empty => "fault"
+      | .error .absolute => "err absolute"
+      | .error .dotPart => "err dot"
+      | .error .backslash => "err backslash"
+  | ["join", a, b] => withBytes2 a b fun a b => "ok " ++ toHexArg (pathJoin a b)
+  | ["dir", a] => withBytes a fun a => "ok " ++ toHexArg (pathDir a)
+  | ["clean", a] => withBytes a fun a => "ok " ++ toHexArg (pathClean a)
+  | ["descr", h] => withBytes h fun b =>
+      match description b with
+      | .ok d => "ok " ++ toHexArg d
+      | .error _ => "err"
+  | ["annot", h] => withBytes h fun b => "ok " ++ toHexArg (annotation b)
+  | ["loc", h, i] => withBytes h fun b =>
+      match i.toNat? with
+      | none => "bad-arg"
+      | some i =>
+        match newLocation b i with
+        | some l => "ok " ++ toString l.line ++ " " ++ toHexArg l.quote
+        | none => "fault"
   | _ => "bad-op"
 
 partial def loop (inp out : IO.FS.Stream) : IO Unit := do
